@@ -63,12 +63,13 @@ func genOIDCDoc(c *sim.Case, role int) doc {
 	urls := func(base string) []any {
 		return []any{"http://idp.test/" + base, "https://idp.test:8443/" + base + "?x=1", "http://idp.test/" + base + "2"}
 	}
-	oddURL := []any{"", "::bad", "noscheme", "http://a b/", "%zz", "/relative"}
+	oddURL := []any{"", "::bad", "noscheme", "http://a b/", "%zz", "/relative", " http://idp.test/x", "http://idp.test/x\n", "\thttp://idp.test/x ", "http://idp.test/x\x00"}
 	c17Field(c, d, "configuration_uri", wo*6, 2, 1, urls(".well-known/openid-configuration"), oddURL)
 	c17Field(c, d, "authorization_uri", wo, wv, wd, urls("auth"), oddURL)
 	c17Field(c, d, "token_uri", wo, wv, wd, urls("token"), oddURL)
 	c17Field(c, d, "callback_uri", wo, wv, wd*2, []any{"https://app.test/cb", "https://app.test:443/oauth/callback", "http://app.test/cb2"},
-		[]any{"", "https://app.test/", "https://app.test", "/relative", "cb", "https://app.test/logout", "%zz", "https://app.test/?x"})
+		[]any{"", "https://app.test/", "https://app.test", "/relative", "cb", "https://app.test/logout", "%zz", "https://app.test/?x",
+			" https://app.test/cb", "https://app.test/cb\n", "\thttps://app.test/cb", "https://app.test/cb\r\n", "https://app.test/\n", " https://app.test/logout"})
 	oddW := 1
 	if c17Odd == 0 {
 		oddW = 0
